@@ -152,7 +152,12 @@ def _is_nobs(x):
 
 def _F_native(n):
     import autograd.numpy as anp
-    return lambda p, x: sum(p[i] * x ** (i + 1) for i in range(n)) + anp.sin(p[0] * x)
+    def F(p, x):
+        prod = 1.0
+        for j in range(1, n):
+            prod = prod * p[j]
+        return sum(p[i] * x ** (i + 1) for i in range(n)) + anp.sin(p[0] * x) * prod
+    return F
 
 
 def _quad_native(args):
@@ -177,12 +182,20 @@ def _quad_post_native(a, r):
     val_of = lambda x: float(x.value) if _is_nobs(x) else float(x)
     pv = [val_of(x) for x in ps]
     av, bv = val_of(a.a), val_of(a.b)
-    F = lambda pp, x: sum(pp[i] * x ** (i + 1) for i in range(n)) + np.sin(pp[0] * x)
+    def prod_except(pp, skip):
+        out = 1.0
+        for j in range(1, n):
+            if j != skip:
+                out *= pp[j]
+        return out
+    # every derivative depends on the other parameters: F = sum_i p_i x^(i+1) + sin(p_0 x) * p_1 * ... * p_(n-1)
+    F = lambda pp, x: sum(pp[i] * x ** (i + 1) for i in range(n)) + np.sin(pp[0] * x) * prod_except(pp, None)
+    dF = lambda i, x: x ** (i + 1) + (x * np.cos(pv[0] * x) * prod_except(pv, None) if i == 0 else np.sin(pv[0] * x) * prod_except(pv, i))
     val = si.quad(lambda x: F(pv, x), av, bv)[0]
     ops = [x for x in ps if _is_nobs(x)] + [x for x in (a.a, a.b) if _is_nobs(x)]
     if not ops:
         return {"plain scipy result": abs(r[0] - val) <= 1e-9 * (1 + abs(val))}
-    g = [si.quad(lambda x, i=i: x ** (i + 1) + (x * np.cos(pv[0] * x) if i == 0 else 0.0), av, bv)[0] for i, x in enumerate(ps) if _is_nobs(x)]
+    g = [si.quad(lambda x, i=i: dF(i, x), av, bv)[0] for i, x in enumerate(ps) if _is_nobs(x)]
     if _is_nobs(a.a):
         g.append(-F(pv, av))
     if _is_nobs(a.b):
